@@ -265,12 +265,33 @@ fn float_only<S: Num + cgmath::BaseFloat>(rec: &mut Rec, rng: &mut Rng) {
         let r = serde_json::from_value::<DQ<S>>(v.clone());
         rec.ok("Decomposed with a missing field is rejected (data model)", r.is_err(), || format!("{v} -> {:?}", r.as_ref().ok()));
     }
-    for pos in 0..4 {
-        let mut fields: Vec<String> = (0..3).map(|i| format!("\"{}\":{}", parts[i].0, parts[i].1)).collect();
-        fields.insert(pos, "\"shear\":1.0".to_string());
-        let text = format!("{{{}}}", fields.join(","));
-        let r = serde_json::from_str::<DQ<S>>(&text);
-        rec.ok("Decomposed with an unknown field is rejected", r.is_err(), || format!("{text} -> {:?}", r.as_ref().ok()));
+    // unknown names include near misses of the real ones (field names are exact, case included)
+    let strangers = [
+        "\"shear\":1.0".to_string(),
+        "\"Scale\":2.5".to_string(),
+        "\"SCALE\":1.0".to_string(),
+        format!("\"DISP\":{}", parts[2].1),
+        format!("\"Rot\":{}", parts[1].1),
+        "\"scale \":2.5".to_string(),
+        "\"x\":0.0".to_string(),
+        "\"\":0.0".to_string(),
+    ];
+    for (k, extra_field) in strangers.iter().enumerate() {
+        for pos in 0..4 {
+            let mut fields: Vec<String> = (0..3).map(|i| format!("\"{}\":{}", parts[i].0, parts[i].1)).collect();
+            fields.insert(pos, extra_field.clone());
+            let text = format!("{{{}}}", fields.join(","));
+            let r = serde_json::from_str::<DQ<S>>(&text);
+            rec.ok("Decomposed with an unknown field is rejected", r.is_err(), || format!("{text} -> {:?}", r.as_ref().ok()));
+        }
+        // a near miss does not stand in for the real field either
+        if (1..5).contains(&k) {
+            let replaced = match k { 1 | 2 => 0, 3 => 2, _ => 1 };
+            let fields: Vec<String> = (0..3).map(|i| if i == replaced { extra_field.clone() } else { format!("\"{}\":{}", parts[i].0, parts[i].1) }).collect();
+            let text = format!("{{{}}}", fields.join(","));
+            let r = serde_json::from_str::<DQ<S>>(&text);
+            rec.ok("Decomposed with a misspelt field (hence a missing one) is rejected", r.is_err(), || format!("{text} -> {:?}", r.as_ref().ok()));
+        }
     }
     // same for the 2-D instantiation (missing fields only; Basis2 text from a real value)
     let b2s = serde_json::to_string(&b2).unwrap();
